@@ -98,7 +98,9 @@ Layouts ==
       sub    |-> [recv |-> "value", fields |-> << Fld("a", "int", FALSE), Fld("b", "string", FALSE) >>],   \* catalog.Sub
       sub_p  |-> [recv |-> "pointer", fields |-> << Fld("a", "int", FALSE), Fld("b", "string", FALSE) >>], \* *catalog.Sub
       subptrs |-> [recv |-> "value", fields |-> << Fld("a", "int", TRUE), Fld("b", "string", TRUE) >>],   \* catalog.SubPtrs
-      outer  |-> [recv |-> "value", fields |-> << Fld("a", "int", FALSE), Fld("w", "wide", FALSE) >>] ]   \* catalog.Outer (a Wide by value)
+      outer  |-> [recv |-> "value", fields |-> << Fld("a", "int", FALSE), Fld("w", "wide", FALSE) >>],   \* catalog.Outer (a Wide by value)
+      \* catalog.Strs: string properties backed by []byte / []rune / a defined string type
+      strs   |-> [recv |-> "value", fields |-> << Fld("b", "string_bytes", FALSE), Fld("r", "string_runes", FALSE), Fld("e", "named", FALSE), Fld("a", "int", FALSE) >>] ]
 LayoutIds == DOMAIN Layouts
 FieldOf(layout, name) ==
     LET fs == Layouts[layout].fields IN fs[CHOOSE i \in DOMAIN fs : fs[i].name = name]
@@ -123,7 +125,8 @@ FieldFits(fk, t) ==
       [] fk = "string" -> t.kind = "string" \/ (t.kind = "enum_string" /\ ~t.typed)
       [] fk = "bool" -> t.kind = "bool"
       [] fk = "float" -> t.kind = "float"
-      [] fk = "named" -> t.kind = "enum_string" /\ t.typed
+      [] fk = "named" -> (t.kind = "enum_string" /\ t.typed) \/ t.kind = "string"
+      [] fk \in {"string_bytes", "string_runes"} -> t.kind = "string"
       [] fk = "list_int" -> t.kind = "list" /\ t.items.kind = "int"
       [] fk = "list_string" -> t.kind = "list" /\ t.items.kind = "string"
       [] fk = "map_string_int" -> t.kind = "map" /\ t.keys.kind = "string" /\ t.values.kind = "int"
